@@ -26,6 +26,12 @@ def build(wt, opts):
 
 
 def demo_run(wt, demo, tag, extra=''):
+    if demo.endswith('.sh') or demo.endswith('.py'):
+        try:
+            p = sh((['bash'] if demo.endswith('.sh') else ['python3']) + [demo, wt], timeout=900, cwd=wt)
+        except subprocess.TimeoutExpired:
+            return 124, 'timeout'
+        return p.returncode, p.stdout[-1500:]
     exe = '%s/_demo_%s' % (wt, tag)
     cxx = demo.endswith('.cpp') or demo.endswith('.cc')
     cmd = ['g++' if cxx else 'gcc', '-O1', '-o', exe, demo, '-I' + wt + '/src', '-I' + wt + '/_build', '-DHAVE_CONFIG_H',
